@@ -11,7 +11,7 @@ from symx import Violation
 from symx.obligation import Obligation
 from props.hw_common import recovery_decorator
 
-OPS = ["batch", "writeA", "writeB", "tick1", "tick6"]
+OPS = ["batch", "writeA", "writeB", "read", "tick1", "tick6"]
 
 
 def _cycles(sym, n):
@@ -44,6 +44,11 @@ def _cycles(sym, n):
                 try:
                     dec.write(v, r)
                     commanded[r.name] = v
+                except HardwareLayerException:
+                    raised = True
+            elif op == "read":
+                try:
+                    dec.read_batch([A, B])      # the engine reads every tick; a successful read also takes Issue back to OK
                 except HardwareLayerException:
                     raised = True
             else:
@@ -88,7 +93,7 @@ OBLIGATIONS = [Obligation(
              "openpectus.engine.hardware_recovery:ErrorRecoveryDecorator.error_read_write",
              "openpectus.engine.hardware_recovery:ErrorRecoveryDecorator.tick"],
     symbolic="per cycle: operation selector, commanded int values (32-bit range), hardware failure bit, reconnect failure bit, elapsed seconds 0..20000",
-    bounds={"quick": "4 cycles over {write_batch(A,B), write(A), write(B), 1 tick, 6 ticks}, two registers",
+    bounds={"quick": "4 cycles over {write_batch(A,B), write(A), write(B), read_batch, 1 tick, 6 ticks}, two registers",
             "thorough": "5 cycles, same operations"},
     assumptions=["hardware_recovery.time replaced by a harness clock (arbitrary non-decreasing integer seconds)",
                  "_setup_decorated_method_forwards stubbed (irrelevant to writes)",
